@@ -93,6 +93,7 @@ var registry = map[string]*PropDef{
 	"C07": {
 		Harnesses: []HarnessDef{
 			{Pkg: "cmd", Func: "VP_C07_Diff", Quick: map[string]int{"pool": 2, "depth": 2, "complen": 2, "symhash": 0}, Thorough: map[string]int{"pool": 3, "depth": 2, "complen": 2, "symhash": 0}, Share: 1.00},
+			{Pkg: "cmd", Func: "VP_C07_EmptyFirst", Quick: map[string]int{}, Thorough: map[string]int{}, Share: 1.00},
 			{Pkg: "cmd", Func: "VP_C07_KindChange", Quick: map[string]int{"complen": 1, "depth": 2}, Thorough: map[string]int{"complen": 2, "depth": 2}, Share: 1.00},
 			{Pkg: "cmd", Func: "VP_C07_ResetStatus", Quick: map[string]int{"depth": 2, "complen": 2, "deepcomplen": 1, "concontent": 1, "asym": 1}, Thorough: map[string]int{"depth": 2, "complen": 2, "concontent": 1}, Share: 1.00},
 			{Pkg: "cmd", Func: "VP_C07_StatusStaged", Quick: map[string]int{"tracked": 1, "depth": 2, "complen": 2}, Thorough: map[string]int{"tracked": 1, "depth": 2, "complen": 2}, Share: 1.00},
@@ -105,7 +106,8 @@ var registry = map[string]*PropDef{
 		Harnesses: []HarnessDef{
 			{Pkg: "cmd", Func: "VP_C08_Positions", Quick: map[string]int{"commits": 11}, Thorough: map[string]int{"commits": 25}, Share: 1.00},
 			{Pkg: "cmd", Func: "VP_C08_Twins", Quick: map[string]int{"complen": 1}, Thorough: map[string]int{"complen": 2}, Share: 1.00},
-			{Pkg: "cmd", Func: "VP_C08_Reset", Quick: map[string]int{"complen": 1, "junk": 1}, Thorough: map[string]int{"complen": 1, "junk": 3}, Share: 1.00},
+			{Pkg: "cmd", Func: "VP_C08_Reset", Quick: map[string]int{"complen": 1, "junk": 1, "stagedextra": 0}, Thorough: map[string]int{"complen": 1, "junk": 3, "stagedextra": 0}, Share: 1.00},
+			{Pkg: "cmd", Func: "VP_C08_Reset", Quick: map[string]int{"complen": 1, "junk": 1, "stagedextra": 1, "histories": 1}, Thorough: map[string]int{"complen": 1, "junk": 1, "stagedextra": 1, "histories": 3}, Share: 1.00},
 		},
 		QuickBudget: 10 * time.Minute, ThoroughBudget: 45 * time.Minute, Assumptions: commonAssumptions,
 	},
@@ -174,6 +176,7 @@ var registry = map[string]*PropDef{
 	"C17": {
 		Harnesses: []HarnessDef{
 			{Pkg: "cmd", Func: "VP_C17_Add", Quick: map[string]int{"complen": 1}, Thorough: map[string]int{"complen": 2}, Share: 1.00},
+			{Pkg: "cmd", Func: "VP_C17_DottedExt", Quick: map[string]int{}, Thorough: map[string]int{}, Share: 1.00},
 			{Pkg: "cmd", Func: "VP_C17_Forms", Quick: map[string]int{"complen": 1}, Thorough: map[string]int{"complen": 2}, Share: 1.00},
 			{Pkg: "cmd", Func: "VP_C17_Semantics", Quick: map[string]int{}, Thorough: map[string]int{}, Share: 1.00},
 		},
